@@ -2,6 +2,7 @@ package wl
 
 import (
 	"fmt"
+	"strings"
 
 	"github.com/acekingke/yaccgo/verifsim/rng"
 )
@@ -100,7 +101,89 @@ func RandomCFG(r *rng.R, p CFGParams) *Spec {
 	if p.Prec {
 		AddRandomPrec(s, r.Sub("prec"))
 	}
+	// the documented default: no %start, the start symbol is the nonterminal called `start`
+	if r.Chance(1, 10) {
+		taken := false
+		for _, n := range s.NTs {
+			if n.Name == "start" {
+				taken = true
+			}
+		}
+		if !taken {
+			s.NTs[s.Start].Name = "start"
+			s.StartDecl = r.Chance(1, 3)
+		}
+	}
+	// the end-marker alias of examples/e.y
+	if r.Chance(1, 8) {
+		s.EOFAlias = "EOFMARK"
+	}
 	return s
+}
+
+// BigCFG: a grammar with more than 64 table columns (2 + terminals + nonterminals), short rules.
+func BigCFG(r *rng.R) *Spec {
+	nn := r.Range(18, 30)
+	nt := r.Range(40, 60)
+	s := &Spec{Family: "big", StartDecl: true}
+	for i := 0; i < nn; i++ {
+		s.NTs = append(s.NTs, NT{Name: fmt.Sprintf("n%d", i)})
+	}
+	for i := 0; i < nt; i++ {
+		s.Terms = append(s.Terms, Term{Name: fmt.Sprintf("T%d", i), Decl: DeclToken})
+	}
+	// layered: nonterminal i only refers to nonterminals > i (plus itself for left recursion), so everything is productive
+	for i := 0; i < nn; i++ {
+		alts := r.Range(1, 3)
+		for a := 0; a < alts; a++ {
+			rule := Rule{L: i, Prec: -1}
+			n := r.Range(1, 3)
+			for j := 0; j < n; j++ {
+				if i+1 < nn && r.Chance(1, 2) {
+					rule.R = append(rule.R, Sym{NT: true, I: r.Range(i+1, nn-1)})
+				} else {
+					rule.R = append(rule.R, Sym{I: r.Intn(nt)})
+				}
+			}
+			s.Rules = append(s.Rules, rule)
+		}
+		if r.Chance(1, 3) {
+			s.Rules = append(s.Rules, Rule{L: i, R: []Sym{{NT: true, I: i}, {I: r.Intn(nt)}, {I: r.Intn(nt)}}, Prec: -1})
+		}
+	}
+	// make sure the start symbol reaches many nonterminals: n0 : n1 n2 ... chains
+	for i := 0; i+1 < nn; i += 2 {
+		s.Rules = append(s.Rules, Rule{L: i, R: []Sym{{I: r.Intn(nt)}, {NT: true, I: i + 1}}, Prec: -1})
+	}
+	return s
+}
+
+// DecorateShared: like DecorateInt but actions come from a fixed template, so that several rules carry byte-identical
+// action text while their symbols use different union fields. Such specs must be NoRec (the rule is not identifiable
+// from the action) and are evaluated over a table-driven derivation.
+func DecorateShared(s *Spec, r *rng.R) {
+	s.Fields = []Field{{"fa", "int"}, {"fb", "int"}, {"fc", "int"}}
+	for i := range s.NTs {
+		s.NTs[i].Tag = s.Fields[r.Intn(3)].Name
+	}
+	for i := range s.Terms {
+		if s.Terms[i].Decl == DeclToken {
+			s.Terms[i].Tag = s.Fields[r.Intn(3)].Name
+		} else {
+			s.Terms[i].Tag = ""
+		}
+	}
+	for i := range s.Rules {
+		rl := &s.Rules[i]
+		var e *Expr = &Expr{Op: 'k', K: 7}
+		for k, x := range rl.R {
+			if s.TagOf(x) != "" {
+				e = &Expr{Op: '+', L: e, R: &Expr{Op: '*', L: &Expr{Op: 'd', K: k + 1}, R: &Expr{Op: 'k', K: 3}}}
+			}
+		}
+		rl.Act = e
+	}
+	s.NoRec = true
 }
 
 // AddRandomPrec declares 1..3 precedence levels over a random subset of the
@@ -157,11 +240,12 @@ var classicsSrc = map[string]string{
 	"palin":         "S: 'a' S 'a' | 'b' S 'b' | 'a' | 'b' |",
 	"lr2":           "S: A 'x' 'y' | B 'x' 'z' ; A: 'a' ; B: 'a'",
 	"default-start": "start: start 'a' | 'b'",
+	"default-start-nested": "start: '(' start ')' | '[' start ']' | item ; item: 'a' | 'b' item",
 }
 
 var classicOrder = []string{"lr0-paren", "slr-expr", "lalr-not-slr", "lr1-not-lalr", "nqlalr", "nqlalr-dp", "nullable", "nullable2",
 	"reads-chain", "includes-scc", "right-rec", "left-rec", "cyclic", "self-cycle", "dangling-else", "ambig-expr", "prec-expr",
-	"nonassoc", "unary", "rr-conflict", "opt-list", "epsilon-start", "json-like", "palin", "lr2", "default-start"}
+	"nonassoc", "unary", "rr-conflict", "opt-list", "epsilon-start", "json-like", "palin", "lr2", "default-start", "default-start-nested"}
 
 // Classics returns fresh copies of the F2 grammars.
 func Classics() []*Spec {
@@ -169,7 +253,7 @@ func Classics() []*Spec {
 	for _, k := range classicOrder {
 		s := MustDSL(classicsSrc[k])
 		s.Family = "F2:" + k
-		if k == "default-start" {
+		if strings.HasPrefix(k, "default-start") {
 			s.StartDecl = false
 		}
 		out = append(out, s)
@@ -180,7 +264,7 @@ func Classics() []*Spec {
 func ClassicByName(name string) *Spec {
 	s := MustDSL(classicsSrc[name])
 	s.Family = "F2:" + name
-	if name == "default-start" {
+	if strings.HasPrefix(name, "default-start") {
 		s.StartDecl = false
 	}
 	return s
@@ -231,12 +315,13 @@ func VaryClassic(s *Spec, r *rng.R) *Spec {
 
 // OperatorTable: family F3. E : E op E (per binary operator) | pre E %prec P | '(' E ')' | NUM.
 type OpTable struct {
-	Spec     *Spec
-	Binary   []int // terminal indices of binary operators
-	Prefix   []int // terminal indices of prefix operators
-	PrefixAs []int // for each prefix operator, the pseudo token whose precedence it takes (-1: its own)
-	Num      int
-	LP, RP   int // -1 when the table has no parentheses
+	Spec     *Spec `json:"-"`
+	Binary   []int `json:"binary"`    // terminal indices of binary operators
+	Prefix   []int `json:"prefix"`    // terminal indices of prefix operators
+	PrefixAs []int `json:"prefix_as"` // for each prefix operator, the pseudo token whose precedence it takes (-1: its own)
+	Num      int   `json:"num"`
+	LP       int   `json:"lp"` // -1 when the table has no parentheses
+	RP       int   `json:"rp"`
 }
 
 func OperatorTable(r *rng.R) *OpTable {
@@ -343,6 +428,7 @@ func OperatorTable(r *rng.R) *OpTable {
 		nr[i] = s.Rules[j]
 	}
 	s.Rules = nr
+	s.OpTab = ot
 	return ot
 }
 
@@ -487,6 +573,9 @@ func TokenMix(r *rng.R) *Spec {
 	for i := range s.Terms {
 		s.Rules = append(s.Rules, Rule{L: 0, R: []Sym{{I: i}}, Prec: -1, Act: &Expr{Op: 'k', K: i + 1}})
 	}
+	if r.Chance(1, 4) {
+		s.EOFAlias = "EOFMARK"
+	}
 	return s
 }
 
@@ -590,7 +679,7 @@ func Exhaustive(maxNT, maxT, maxRules, maxLen int, f func(*Spec) bool) {
 // derive each other), "unreachable" (unproductive but not referenced),
 // "start" (the start symbol itself is unproductive), "nullable-mix"
 // (unproductive nonterminal next to nullable ones).
-var UnusableKinds = []string{"undefined", "norules", "unproductive", "mutual", "unreachable", "start", "nullable-mix", "deep"}
+var UnusableKinds = []string{"undefined", "norules", "unproductive", "mutual", "unreachable", "start", "nullable-mix", "deep", "named-start", "named-start-inner"}
 
 func MakeUnusable(base *Spec, kind string, r *rng.R) *Spec {
 	s := base.Clone()
@@ -649,6 +738,29 @@ func MakeUnusable(base *Spec, kind string, r *rng.R) *Spec {
 		s.Rules = append(s.Rules, Rule{L: u, R: []Sym{{NT: true, I: s.Start}, {NT: true, I: u}}, Prec: -1})
 		s.Start = u
 		s.StartDecl = true
+	case "named-start":
+		// the unproductive start symbol is literally called `start` (the documented default name)
+		for i := range s.NTs {
+			if s.NTs[i].Name == "start" {
+				s.NTs[i].Name = "start_x"
+			}
+		}
+		u := newNT("start", "")
+		s.Rules = append(s.Rules, Rule{L: u, R: []Sym{{NT: true, I: u}, someTerm(), {NT: true, I: s.Start}}, Prec: -1},
+			Rule{L: u, R: []Sym{someTerm(), {NT: true, I: u}, someTerm()}, Prec: -1})
+		s.Start = u
+		s.StartDecl = r.Chance(1, 2)
+	case "named-start-inner":
+		// a helper nonterminal called `start` without base case, next to an explicit %start
+		for i := range s.NTs {
+			if s.NTs[i].Name == "start" {
+				s.NTs[i].Name = "start_x"
+			}
+		}
+		u := newNT("start", "")
+		s.Rules = append(s.Rules, Rule{L: u, R: []Sym{someTerm(), {NT: true, I: u}}, Prec: -1})
+		s.StartDecl = true
+		refFrom(u)
 	case "nullable-mix":
 		// E: | E x ; U: E U  (U needs itself although E is nullable)
 		e := newNT("maybe_e", "")
